@@ -32,7 +32,7 @@ CLAIMS = {
 CLAIMS.pop('C13x')
 
 # thorough tiers are registered only once they have been run to completion on the unchanged tree
-THOROUGH_VERIFIED = {'C02', 'C06', 'C07', 'C13', 'C14', 'C15'}   # run to completion on the unchanged tree at the end of round 3 (exit 0)
+THOROUGH_VERIFIED = {'C01', 'C02', 'C06', 'C07', 'C13', 'C14', 'C15'}   # run to completion on the unchanged tree at the end of round 3 (exit 0)
 
 NA = {
     'C16': 'floating-point forward-error bounds over chains of operations: no contract within reach of CBMC\'s bit-precise float encoding can express or decide a 2^20-ulp bound; no real-arithmetic error model is installed (DESIGN.md 4 C16)',
